@@ -1,19 +1,23 @@
 (* Collect engine — correspondence cases for C06: what the real TopNCollector / Index.Search
    returned on an input, checked against the executable model (Collect/TopN.v) and the spec. *)
-From Coq Require Import ZArith List Bool.
+From Coq Require Import ZArith List Bool Uint63.
 From Verif Require Import Common.Bytes Collect.TopN.
 Import ListNotations.
 Local Open Scope Z_scope.
 
-(* compact notation for byte strings in cases files: [bs v] is the byte string whose big-endian
-   digits follow a leading 01 byte in v, e.g. bs 0x016b3530 = "k50" (numerals are what coqc spends its
-   time on when reading a cases file, so a string is written as one numeral) *)
+(* Compact literals for cases files. coqc spends ~0.4 ms elaborating one Z numeral (number
+   notations are interpreted by reduction) but next to nothing on a primitive-integer literal, so the
+   harness writes every number as a [%uint63] literal: [zi i] is its value, [bs i] the byte string
+   whose big-endian digits follow a leading 01 byte (at most 7 bytes), [bn] concatenates chunks.
+   E.g. bs 0x016b3530 = "k50". Used only to read case data (never in the model or the theorems). *)
 Fixpoint bz_go (n : nat) (v : Z) (acc : bytes) : bytes :=
   match n with
   | O => acc
   | S n' => bz_go n' (v / 256) (v mod 256 :: acc)
   end.
-Definition bs (v : Z) : bytes := bz_go (Z.to_nat (Z.log2 v / 8)) v [].
+Definition zi (i : Uint63.int) : Z := Uint63.to_Z i.
+Definition bs (i : Uint63.int) : bytes := let v := zi i in bz_go (Z.to_nat (Z.log2 v / 8)) v [].
+Definition bn (l : list Uint63.int) : bytes := concat (map bs l).
 
 Definition ids_eqb := list_eqb beqb.
 Definition ids_of (l : list dmatch) : list bytes := map did l.
